@@ -12,7 +12,8 @@
     results was applied exactly once — is exercised by the driver through a
     fault-injecting proxy; notifications that arrive while a monitor is being
     restarted are C01's deferral theorem. *)
-From LOV Require Import Cli.Reconnect Cli.Since Cli.SinceProofs Srv.MonitorProofs.
+From LOV Require Import Cli.Reconnect Cli.Since Cli.SinceProofs Srv.MonitorProofs Cli.Leader Cli.LeaderProofs.
+From Coq Require Import Permutation.
 
 Theorem C16_reconnect_resynchronises : forall d c ms order,
   order ≡ₚ ms -> forall t, reconnect_fixed d c order t = monitored d ms t.
@@ -66,3 +67,35 @@ Theorem C16_pinned_since_refuted :
   cs_cache t2 = pc q <$> ex_B.
 Proof. exact pinned_since_refuted. Qed.
 Print Assumptions C16_pinned_since_refuted.
+
+(** * leader-only mode: the endpoint the client attaches to never reports
+    "clustered and not the leader" for its database, in whatever order the
+    server lists its databases; a follower is refused; no endpoint is chosen
+    exactly when all are refused; an endpoint that announced the loss of
+    leadership is not chosen again while it keeps saying so *)
+Theorem C16_chosen_endpoint_is_not_a_follower : forall db eps k rows,
+  choose_endpoint db eps = Some k -> nth_error eps k = Some rows -> one_row_per_db db rows ->
+  ~ reports_not_leader db rows.
+Proof. exact chosen_endpoint_is_not_a_follower. Qed.
+Print Assumptions C16_chosen_endpoint_is_not_a_follower.
+
+Theorem C16_follower_is_refused : forall db rows,
+  one_row_per_db db rows -> reports_not_leader db rows -> accepts db rows = false.
+Proof. exact follower_is_refused. Qed.
+Print Assumptions C16_follower_is_refused.
+
+Theorem C16_row_order_irrelevant : forall db rows rows',
+  Permutation rows rows' -> one_row_per_db db rows -> accepts db rows = accepts db rows'.
+Proof. exact accepts_order_irrelevant. Qed.
+Print Assumptions C16_row_order_irrelevant.
+
+Theorem C16_none_chosen_iff_all_refused : forall db eps,
+  choose_endpoint db eps = None <-> Forall (fun rows => accepts db rows = false) eps.
+Proof. exact no_endpoint_chosen_iff_all_refused. Qed.
+Print Assumptions C16_none_chosen_iff_all_refused.
+
+Theorem C16_lost_leader_not_chosen_again : forall db rows eps k,
+  one_row_per_db db rows -> reports_not_leader db rows ->
+  choose_endpoint db (rotate (rows :: eps)) = Some k -> k < length eps.
+Proof. exact lost_leader_not_chosen_again. Qed.
+Print Assumptions C16_lost_leader_not_chosen_again.
